@@ -113,7 +113,16 @@ def run(ctx: Ctx) -> None:
             fws = ctx.rng.choice([("pa",), ("pa", "pd"), ("py",), ("pd", "py")])
             # option variants are generated only for single-framework requests: with several frameworks the planner de-duplicates
             # transform steps across option variants (a defect recorded under C02), which is not what this check is about
-            specs.append(S.gen_spec(ctx.rng, max_feats=6, frameworks=fws, allow_multi_fw=True, allow_options=len(fws) == 1))
+            specs.append(S.gen_spec(ctx.rng, max_feats=6, frameworks=fws, allow_multi_fw=True, allow_options=len(fws) == 1,
+                                    interleave=len(fws) == 1 and ctx.rng.random() < 0.5))
+    # witness of the known wait-for-cycle finding: two groups depending on each other's features (feature graph acyclic)
+    uid = F.uniq("")
+    specs.insert(0, {"roots": [{"name": f"RQ{uid}", "cols": {f"r{uid}": [1, 2, 3]}, "fw": "pa"}],
+                     "groups": [{"name": f"GQ{uid}_1", "fw": "pa", "features": {f"a{uid}": {"parents": [f"r{uid}"], "expr": ["add", ["col", f"r{uid}"], ["const", 1]]},
+                                                                                 f"b{uid}": {"parents": [f"g{uid}"], "expr": ["add", ["col", f"g{uid}"], ["const", 1]]}}},
+                                {"name": f"GQ{uid}_2", "fw": "pa", "features": {f"g{uid}": {"parents": [f"r{uid}"], "expr": ["mul", ["col", f"r{uid}"], ["const", 2]]},
+                                                                                 f"f{uid}": {"parents": [f"a{uid}"], "expr": ["mul", ["col", f"a{uid}"], ["const", 2]]}}}],
+                     "request": [{"name": f"b{uid}", "options": {}}, {"name": f"f{uid}", "options": {}}]})  # fmt: skip
     seeds = [1, 7] if ctx.quick else [1, 7, 42, 1234]
     # in-process preparations
     lean_reqs, metas = [], []
@@ -143,7 +152,15 @@ def run(ctx: Ctx) -> None:
         if not o.get("planOK"):
             # per-plan translation validation failed: the theorem's hypotheses do not hold for this accepted plan
             what = "accepted plan is not closed/acyclic/disjoint: " + json.dumps({k: o.get(k) for k in ("nonempty", "disjoint", "ranked")})
-            ctx.violation("planOK", {"spec": spec, "plan": S.lean_plan(exp)}, what, o, True)
+            fclass = "mutually-dependent-feature-groups" if ("groups" in spec and S.mutual_groups(spec) and o.get("nonempty") and o.get("disjoint")) else None
+            ctx.violation("planOK", {"spec": spec, "plan": S.lean_plan(exp)}, what, o, True, finding_class=fclass)
+            # the model says such a plan never returns (C04.wait_cycle_never_returns): confirm on the real code with a short watchdog
+            rr = S.run_session(sess, "sync", timeout=5, attempts=1)
+            ctx.case("spin_confirm", {"spec": spec}, True, outcome="timeout" if rr.timed_out else ("raise" if rr.error else "return"))
+            if not rr.timed_out and rr.error is None:
+                ctx.disagree("spin_confirm", {"spec": spec, "plan": S.lean_plan(exp)}, "returned", "model: a plan that is not well ranked never returns")
+            S.kill_stray_children()
+            continue
         runnable.append((spec, exp, sess))
     # every accepted plan terminates (returns or raises) in every mode
     for spec, exp, sess in runnable:
